@@ -408,9 +408,10 @@ func c05CheckCorpus(e corpusEntry, st *stats.Run) error {
 				out, _ = os.ReadFile(filepath.Join(cdir, "out.dat"))
 			} else {
 				os.WriteFile(filepath.Join(cdir, "key.txt"), c01KeyFile(p, r), 0o600)
-				var so string
-				code, so, stderr = runCLI(cdir, []string{"PATH=/nonexistent", "HOME=" + cdir}, nil, filepath.Join(bin, "age"), "-d", "-i", "key.txt", "in.age")
-				out = []byte(so)
+				// the plaintext goes to a file that exists already and is longer
+				os.WriteFile(filepath.Join(cdir, "out.dat"), bytes.Repeat([]byte("previous content\n"), 20000), 0o644)
+				code, _, stderr = runCLI(cdir, []string{"PATH=/nonexistent", "HOME=" + cdir}, nil, filepath.Join(bin, "age"), "-d", "-i", "key.txt", "-o", "out.dat", "in.age")
+				out, _ = os.ReadFile(filepath.Join(cdir, "out.dat"))
 			}
 			os.RemoveAll(cdir)
 			if code == -2 {
